@@ -27,6 +27,7 @@ def run(chk, replay=None):
     for seq in rrlib.gen_seqs(chk, rrlib.REQ_OPS_GONE, 6 if thorough else 5, ["recv_drop", "attach2", "pclose1"], "reqgone"):
         if "pclose1" in seq and "attach2" in seq:
             scen += 1; fam.append(rrlib.req_script(seq, scen))
+    st = rrlib.req_stale_scripts(scen); scen += len(st); fam += st
     for s in fam: chk.case(("seq", s["scen"]))
     rrlib.run_and_report(chk, fam, "c07-seq", ("C07/",))
     rnd = rrlib.random_rep_scripts(rng, 1500 if thorough else 200, scen + 1)
